@@ -7,13 +7,9 @@
   (include/st_string.h:111-139).  Bytes are `Nat` below 256.
 -/
 import StVerif.Base
+import StVerif.Spec.Search   -- only for the API enum `CaseMode` (`ST::case_sensitivity_t`)
 
 namespace StVerif.Search
-
-/-- `ST::case_sensitivity_t` -/
-inductive CaseMode where
-  | sensitive | insensitive
-  deriving DecidableEq, Repr, Inhabited
 
 /-- `cl_fast_lower` on the byte value -/
 def lower (c : Nat) : Nat := if 0x41 ≤ c ∧ c ≤ 0x5A then c + 32 else c
